@@ -130,8 +130,19 @@ func (g *Gen) instr(st *BState, b *ssa.BasicBlock, in ssa.Instruction) {
 		g.imprecise = append(g.imprecise, "struct value field read havocked: "+in.String())
 		g.havocVal(in)
 	case *ssa.Index:
-		g.imprecise = append(g.imprecise, "array value index havocked: "+in.String())
-		g.havocVal(in)
+		switch t := in.X.Type().Underlying().(type) {
+		case *types.Basic: // s[i] on a string
+			x, k := g.val(in.X), g.val(in.Index)
+			g.safety(st, "S.idx", in.Pos(), fmt.Sprintf("(and (<= 0 %s) (< %s (strlen %s)))", k, k, x))
+			g.def(in, fmt.Sprintf("(strat %s %s)", x, k))
+		case *types.Array: // a[i] on an array value: bounds checked, the element itself is not modelled
+			k := g.val(in.Index)
+			g.safety(st, "S.idx", in.Pos(), fmt.Sprintf("(and (<= 0 %s) (< %s %d))", k, k, t.Len()))
+			g.imprecise = append(g.imprecise, "array value index havocked: "+in.String())
+			g.havocVal(in)
+		default:
+			g.fatalf("index on %s", in.X.Type())
+		}
 	default:
 		g.fatalf("unsupported instruction %T: %s", in, in.String())
 	}
